@@ -119,6 +119,20 @@ let run_case (line : string) =
     Stdlib.List.iteri (fun idx o ->
         let loglen = Stdlib.List.length !s.Model.ps_db.Model.d_log in
         let (p', r) = Model.step prog noeq pfam fams lru0 sfuel fuel !s o in
+        (* glue: the serialised memo table is a closure over the whole state it was taken from;
+           tabulate it over the finite key range of the case so that chains of snapshot/restore
+           do not nest closures (keys outside the range never have memos) *)
+        let p' = match o, p'.Model.ps_img with
+          | Model.OSnapshot, Some img ->
+            let tbl = Hashtbl.create 64 in
+            for fam = 0 to nfam - 1 do for k = 0 to nk do
+                match img.Model.i_memo (n_of_int fam, n_of_int k) with
+                | Some m -> Hashtbl.replace tbl (fam, k) m
+                | None -> ()
+              done done;
+            let g (fam, k) = Hashtbl.find_opt tbl (int_of_n fam, int_of_n k) in
+            { p' with Model.ps_img = Some { img with Model.i_memo = g } }
+          | _ -> p' in
         s := p';
         let s' = p'.Model.ps_db in
         (match r with
@@ -154,14 +168,6 @@ let run_case (line : string) =
             | Some v -> Printf.printf "V %d ret %d\n" idx (int_of_n v)
             | None -> Printf.printf "V %d cycle\n" idx)
          | _ -> ());
-        (* from-scratch values of every node at the current snapshot (for the reuse oracles) *)
-        let wb = Buffer.create 128 in
-        for fam = 0 to nfam - 1 do for k = 0 to nk - 1 do
-            match Spec.evalo prog fuel (Spec.snap_of s') (n_of_int fam, n_of_int k) with
-            | Some v -> Buffer.add_string wb (Printf.sprintf "%d.%d=%d;" fam k (int_of_n v))
-            | None -> Buffer.add_string wb (Printf.sprintf "%d.%d=c;" fam k)
-          done done;
-        Printf.printf "W %d %s\n" idx (Buffer.contents wb);
         (* state *)
         let r = s'.Model.d_revs in
         let b = Buffer.create 256 in
